@@ -31,6 +31,9 @@ def rnd(n, seed):
 INPUTS = {
     "8k": {"f": rnd(8300, 1), "g": rnd(3000, 3)},
     "20k": {"f": rnd(8192, 1) + bytes(8192) + rnd(4196, 2), "g": rnd(8192, 4) + bytes(8192)},
+    # large enough that the encoder emits output while input is still pending (LZMA2 chunks are cut at 64 KiB):
+    # only then can a write error hit with unconsumed input in the buffers
+    "200k": {"f": rnd(200000, 5), "g": rnd(5000, 6)},
 }
 
 
@@ -61,6 +64,8 @@ MODES = [
     Mode("force", ["-f"], "c", ["f"], pre="force"),
     Mode("stdout", ["-c"], "c", ["f"], stdout=True),
     Mode("two", [], "c", ["f", "g"]),
+    Mode("two-T1", ["-T1"], "c", ["f", "g"]),      # single-threaded coder object shared by consecutive files
+    Mode("three-T1-keep", ["-T1", "-k"], "c", ["f", "g", "f2"], keep=True, tiers=("thorough",)) if False else Mode("d-two-T1", ["-d", "-T1"], "d", ["f", "g"]),
     Mode("files", ["--files=list"], "c", ["f", "g"], listfile=True),
     Mode("nosync", ["--no-sync"], "c", ["f"], sync=False),
     Mode("T1", ["-T1"], "c", ["f"]),
@@ -74,7 +79,7 @@ MODES = [
     Mode("two-force-nosync", ["-f", "--no-sync"], "c", ["f", "g"], pre="force", sync=False, tiers=("thorough",)),
 ]
 MODE = {m.name: m for m in MODES}
-PAIR_MODES = ["compress", "decompress"]          # thorough: every pair k1<k2 (input 20k)
+PAIR_MODES = ["compress", "decompress", "two", "force", "stdout"]      # thorough: every pair k1<k2 (input 20k)
 PAIR_KINDS = [("err", "err"), ("err", "sig:15"), ("sig:15", "err"), ("short", "err"), ("err", "exit")]
 
 
@@ -486,7 +491,9 @@ def evaluate(ctx, mode, inp, faults, res, base):
 
 
 def kinds_for(call):
-    ks = ["err"] + SIGS + ["exit"]
+    ks = SIGS + ["exit"]
+    if call.name != "sigaction":       # sigaction() cannot fail when its arguments are valid
+        ks = ["err"] + ks
     if call.name in XFER:
         ks += ["short", "eintr", "eagain"]
     elif call.name == "poll":
@@ -506,6 +513,7 @@ def run(tier):
 def _run(ck, ctx, tier):
     modes = [m for m in MODES if tier in m.tiers]
     plans = [(m, inp) for m in modes for inp in ("8k", "20k")]
+    plans += [(m, "200k") for m in modes if m.name in ("two-T1",) or (tier == "thorough" and m.name in ("two", "files", "d-two-T1"))]
     ex = concurrent.futures.ThreadPoolExecutor(vlib.NCPU)
     table = ck.sub
     outcomes = {}
@@ -592,6 +600,9 @@ def _run(ck, ctx, tier):
                     for a, b in PAIR_KINDS:
                         if a == "short" and base.calls[k1 - 1].name not in XFER:
                             continue
+                        if (a == "err" and base.calls[k1 - 1].name == "sigaction") or \
+                                (b == "err" and base.calls[k2 - 1].name == "sigaction"):
+                            continue
                         jobs.append((MODE[name], "20k", "%d:%s,%d:%s" % (k1, a, k2, b)))
 
     def work(job):
@@ -630,7 +641,8 @@ def _run(ck, ctx, tier):
         "of about 8 KiB and 20 KiB" % ", ".join(PAIR_MODES),
         "signals are raised synchronously in xz's main thread immediately before the k-th interposed call; a signal arriving "
         "in the middle of lzma_code() is represented by the neighbouring call boundaries",
-        "calls on stderr, on xz's internal self-pipe and the buffered stdio read behind fgetc() are not fault positions",
+        "calls on stderr, on xz's internal self-pipe and the buffered stdio read behind fgetc() are not fault positions; "
+        "sigaction() is a fault position for signals and process death but not for errors (it cannot fail with valid arguments)",
         "errors on descriptors that carry no written data (close(src), close(dir), *stat, fchmod/fchown/futimens, fcntl) "
         "are held to the no-data-loss invariant only: xz ignores or merely warns about them by design",
         "'target decodes to the source' is decided by Python's lzma module, not by the xz under test",
